@@ -1,10 +1,11 @@
 #!/bin/bash
-# usage: new_batch.sh Cxx Cyy ...   creates /tmp/wt_n<xx> worktrees (private target copy) and prompt files
-cd /tmp/wt_conf && git checkout -q -- . && rm -f tests/demo_*.rs target/debug/deps/demo_* target/debug/demo_*; rm -rf /tmp/wt_conf/target/debug/incremental
+# usage: [MODE=refactor] new_batch.sh Cxx Cyy ...   creates /tmp/wt_n<xx> (or wt_r<xx>) worktrees (private slim target copy) and prompt files
+MODE=${MODE:-break}; pre=n; [ "$MODE" = refactor ] && pre=r
+cd /tmp/wt_conf && git checkout -q -- . && rm -f tests/demo_*.rs target/debug/deps/demo_* target/debug/demo_*; rm -rf /tmp/wt_conf/target/debug/incremental /tmp/wt_conf/target/debug/examples
 HEAD=$(git -C /repo rev-parse HEAD); git -C /tmp/wt_conf checkout -q --detach $HEAD 2>/dev/null
 for p in "$@"; do
-  n=${p#C}; wt=/tmp/wt_n$n
+  n=${p#C}; wt=/tmp/wt_$pre$n
   git -C /repo worktree add --detach $wt HEAD -q && cp -a /tmp/wt_conf/target $wt/target && mkdir -p $wt/out
-  python3 /verif/tools/agent_prompt.py $p $wt
+  python3 /verif/tools/agent_prompt.py $p $wt $MODE
 done
 df -h / | tail -1
